@@ -46,6 +46,10 @@ type Unit struct {
 	// Lockset: run the static lock-discipline analysis (type contracts protected_by / immutable / ...) over every
 	// function of the unit's packages
 	Lockset bool `json:"lockset,omitempty"`
+	// TaggedRoots: roots of this unit for which only contract clauses count (as the property-level scope "tagged",
+	// per root): their zero-annotation safety sweep belongs to another property or is out of reach (unknown
+	// externals, package-level metrics objects)
+	TaggedRoots []string `json:"tagged_roots,omitempty"`
 }
 
 type PropConfig struct {
@@ -167,8 +171,12 @@ func runUnit(u Unit, cfg *PropConfig, tier string, workdir string, res *checkRes
 			continue
 		}
 		e.statesRun = 0
+		tr := time.Now()
 		if err := e.RunRoot(f); err != nil {
 			res.engineErrors = append(res.engineErrors, err.Error())
+		}
+		if os.Getenv("GOVC_VERBOSE") != "" {
+			fmt.Fprintf(os.Stderr, "root %s: explored in %.1fs, %d states, %d obligations so far\n", r, time.Since(tr).Seconds(), e.statesRun, len(e.obligations))
 		}
 	}
 	if u.Lockset {
@@ -205,20 +213,35 @@ func runUnit(u Unit, cfg *PropConfig, tier string, workdir string, res *checkRes
 	if v := os.Getenv("GOVC_TIMEOUT"); v != "" {
 		fmt.Sscanf(v, "%d", &timeout)
 	}
-	if cfg.Scope == "tagged" {
+	if cfg.Scope == "tagged" || len(u.TaggedRoots) > 0 {
 		// this property's check counts contract clauses (and the invariants / preconditions they rest on);
 		// the zero-annotation safety sweep of code reached after them belongs to other properties
+		taggedRoot := map[string]bool{}
+		for _, r := range u.TaggedRoots {
+			taggedRoot[r] = true
+		}
 		var keep []*Obligation
 		for _, o := range e.obligations {
-			if o.Kind == "safety" || o.Kind == "alloc" {
+			if (o.Kind == "safety" || o.Kind == "alloc") && (cfg.Scope == "tagged" || taggedRoot[o.Root]) {
 				continue
 			}
 			keep = append(keep, o)
 		}
 		e.obligations = keep
 	}
+	td := time.Now()
 	e.discharge(workdir, timeout)
 	e.incClose()
+	if os.Getenv("GOVC_VERBOSE") != "" {
+		fmt.Fprintf(os.Stderr, "unit %s: %d obligations discharged in %.1fs\n", u.Module, len(e.obligations), time.Since(td).Seconds())
+		if os.Getenv("GOVC_VERBOSE") == "2" {
+			for _, o := range e.obligations {
+				if o.Result != nil && o.Result.Secs > 2 {
+					fmt.Fprintf(os.Stderr, "  slow %.1fs %s %s %s\n", o.Result.Secs, o.Result.Status, o.Result.Solver, o.Name)
+				}
+			}
+		}
+	}
 	// group
 	byName := map[string]*group{}
 	// vacuity covers: a cover name is vacuous only when every instance (path) of it is unsatisfiable
